@@ -167,6 +167,14 @@ pub fn exercise(text: &str) -> Result<Seen, Fail> {
             for i in 0..n.min(3) {
                 if let Ok(dd) = d.clone().partial(i) {
                     let _ = dd.eval(&vals);
+                    // chains on derived expressions (derivatives are often constants that still list
+                    // variables): helper methods, overloaded operators, substitution, differentiation again
+                    let _ = dd.clone().sin().and_then(|x| x.partial(i)).map(|x| x.eval(&vals));
+                    let _ = (-dd.clone()).and_then(|x| -x).and_then(|x| x.partial(i)).map(|x| x.eval(&vals));
+                    let _ = dd.clone().operate_unary("ln").and_then(|x| x.partial_nth(i, 2)).map(|x| x.eval(&vals));
+                    let _ = (dd.clone() * d.clone()).and_then(|x| x + dd.clone()).and_then(|x| x.pow(dd.clone())).map(|x| x.eval(&vals));
+                    let _ = d.clone().subs(&mut |_name: &str| Some(dd.clone())).and_then(|x| x.partial(i)).map(|x| x.eval(&vals));
+                    let _ = (dd.clone() / dd.clone()).and_then(|x| x.partial(i)).map(|x| (x.eval(&vals), x.unparse().len()));
                 }
             }
         }
